@@ -129,6 +129,9 @@ impl ISocket for ReqSocket {
       }
     }
 
+    #[cfg(any(rzmq_verif, kani))]
+    crate::verif_facade::sched_point("ReqSocket::send:after-check");
+
     let timeout_opt: Option<Duration> = { self.core.core_state.read().options.sndtimeo };
 
     // === ASYNC OPERATION: Find a Peer (No Lock Held) ===
